@@ -7,7 +7,10 @@ use reqwest::{header, Client, ClientBuilder, Response};
 use std::fs::File;
 #[cfg(feature = "crypto_openssl")]
 use std::io::prelude::*;
+#[cfg(not(feature = "breard_r_acmed_verif"))]
 use std::{thread, time};
+#[cfg(feature = "breard_r_acmed_verif")]
+use {crate::verif::thread, std::time};
 
 pub const CONTENT_TYPE_JOSE: &str = "application/jose+json";
 pub const CONTENT_TYPE_JSON: &str = "application/json";
@@ -170,17 +173,23 @@ fn get_client(root_certs: &[String]) -> Result<Client, Error> {
 			client_builder = client_builder.add_root_certificate(crt);
 		}
 	}
+	#[cfg(feature = "breard_r_acmed_verif")]
+	return crate::verif::net::cached_client();
 	Ok(client_builder.build()?)
 }
 
 pub async fn get(endpoint: &mut Endpoint, url: &str) -> Result<ValidHttpResponse, HttpError> {
 	let client = get_client(&endpoint.root_certificates)?;
 	rate_limit(endpoint).await;
+	#[cfg(not(feature = "breard_r_acmed_verif"))]
 	let response = client
 		.get(url)
 		.header(header::ACCEPT, CONTENT_TYPE_JSON)
 		.send()
 		.await?;
+	#[cfg(feature = "breard_r_acmed_verif")]
+	let response =
+		crate::verif::net::send(client.get(url).header(header::ACCEPT, CONTENT_TYPE_JSON)).await?;
 	update_nonce(endpoint, &response)?;
 	check_status(&response)?;
 	ValidHttpResponse::from_response(response)
@@ -210,7 +219,10 @@ where
 		let body = data_builder(nonce, url)?;
 		rate_limit(endpoint).await;
 		log::trace!("POST request body: {body}");
+		#[cfg(not(feature = "breard_r_acmed_verif"))]
 		let response = request.body(body).send().await?;
+		#[cfg(feature = "breard_r_acmed_verif")]
+		let response = crate::verif::net::send(request.body(body)).await?;
 		update_nonce(endpoint, &response)?;
 		match check_status(&response) {
 			Ok(_) => {
